@@ -182,17 +182,17 @@ Proof.
 Qed.
 
 Lemma map_tree_ext : forall leaff, lf_ok leaff ->
-  forall fuel lk fe h r pre h' r', map_tree fuel lk fe leaff h r pre = Some (h', r') -> heap_ext h h'.
+  forall fuel lk ln fe h r pre h' r', map_tree fuel lk ln fe leaff h r pre = Some (h', r') -> heap_ext h h'.
 Proof.
-  intros leaff Hl. induction fuel as [|f IH]; intros lk fe h r pre h' r' H; [discriminate|].
+  intros leaff Hl. induction fuel as [|f IH]; intros lk ln fe h r pre h' r' H; [discriminate|].
   cbn [map_tree] in H. destruct r as [v|n].
   - destruct (leaff pre h v) as [h1 v1] eqn:E. inversion H; subst.
     pose proof (lf_ok_ext _ Hl pre h v) as X. now rewrite E in X.
   - destruct (get_node h n) as [nd|]; [|discriminate].
-    destruct (map_ents (map_tree f lk fe leaff) fe pre h (nents nd)) as [[h1 es1]|] eqn:E; [|discriminate].
+    destruct (map_ents (map_tree f lk ln fe leaff) fe pre h (nents nd)) as [[h1 es1]|] eqn:E; [|discriminate].
     cbn in H. inversion H; subst.
     eapply heap_ext_trans; [eapply map_ents_ext; [|exact E]; intros; eapply IH; eauto|].
-    apply (alloc_node_ext h1 (mkNode es1 lk)).
+    apply (alloc_node_ext h1 (mkNode es1 (lk || (ln && nlock nd)))).
 Qed.
 
 Lemma lf_same_ok : lf_ok lf_same.
@@ -301,7 +301,7 @@ Ltac pure_solve :=
   repeat match goal with H : alloc_node _ _ = (_, _) |- _ => unfold alloc_node in H; inversion H; subst; clear H end;
   cbn; try apply stor_ext_refl; try (apply stor_ext_same; reflexivity);
   try (match goal with
-       | H : map_tree _ _ _ _ _ _ _ = Some (_, _) |- _ =>
+       | H : map_tree _ _ _ _ _ _ _ _ = Some (_, _) |- _ =>
            eapply map_tree_ext in H;
            [apply H|first [apply lf_same_ok|apply lf_sub_ok|apply lf_copy_ok|apply lf_gather_ok|apply lf_un_ok
                           |apply lf_contig_ok|apply lf_bin_ok]]
